@@ -43,7 +43,7 @@ func vIPs(n, size int) []net.IP {
 }
 
 func vRR() RR {
-	rr := RR{Name: vName(1 + vTier()), Class: vUint16(), TTL: vUint32()}
+	rr := RR{Name: vName(1), Class: vUint16(), TTL: vUint32()}
 	switch vInt(0, 4) {
 	case 0:
 		rr.Type, rr.Data = 1, net.IP(vBytes(4))
@@ -61,7 +61,7 @@ func vRR() RR {
 		rr.Data = opts
 	case 4:
 		rr.Type = 65
-		h := HTTPS{Priority: vUint16(), Target: vName(1 + vTier()), NoDefaultALPN: vBool(), Port: vUint16()}
+		h := HTTPS{Priority: vUint16(), Target: vName(1), NoDefaultALPN: vBool(), Port: vUint16()}
 		for i, n := 0, 2*vInt(0, 1); i < n; i++ {
 			p := vBytes(1 + i)
 			h.ALPN = append(h.ALPN, string(p))
